@@ -184,7 +184,7 @@ type c20Value struct {
 
 var c20JSONDocs = []string{`null`, `1`, `"s"`, `true`, `{}`, `[]`, `{"a":1}`, `[1]`, `{"hostname":{}}`, `{"hostname":[]}`, `{"hostname":"h","mtu":"x"}`,
 	`{"if":[{"name":"e1"}]}`, `{"if":{}}`, `{"if":[1]}`, `{"if":[{}]}`, `{"if":[{"name":{}}]}`, `{"dns":"x"}`, `{"dns":[{}]}`, `{"banner":1}`, `{"banner":{"text":[]}}`,
-	`{"name":"e1","unit":[{"id":"x","vlan":{}}]}`, `{"d1":3}`, `{"d1":"x"}`, `{"u64":-1}`, `{"u64":1.5}`, `{"em":1}`, `{"un":{}}`, `{"idr":5}`, `{"ll-i8":[null]}`, `{"verif-vm:hostname":"h"}`, `{":":1}`, `{`, ``}
+	`{"name":"e1","unit":[{"id":"x","vlan":{}}]}`, `{"d1":3}`, `{"d1":"x"}`, `{"u64":-1}`, `{"u64":1.5}`, `{"em":1}`, `{"un":{}}`, `{"idr":5}`, `{"ll-i8":[null]}`, `{"ll-i8":null}`, `{"dns":null}`, `{"hostname":null}`, `{"if":null}`, `{"banner":null}`, `{"if":[null]}`, `{"verif-vm:hostname":"h"}`, `{":":1}`, `{`, ``}
 
 func c20Values() []c20Value {
 	tv := func(v any) *sdcpb.TypedValue {
@@ -423,6 +423,8 @@ var c20XMLDocs = []string{
 	`<data><if xmlns="urn:verif:vm">text</if></data>`,
 	`<data><dns xmlns="urn:verif:vm">top-level-leaflist</dns></data>`,
 	`<data><hostname xmlns="urn:verif:vm">top-level-leaf</hostname></data>`,
+	`<data><tl xmlns="urn:verif:vm">a</tl><tl xmlns="urn:verif:vm">b</tl></data>`,
+	`<data><tleaf xmlns="urn:verif:vm">x</tleaf></data>`,
 	`<data><dk xmlns="urn:verif:vm"><zk>1</zk><v>x</v></dk></data>`,
 	`<data><types xmlns="urn:verif:vm"><u8></u8><i8>-</i8><d1>.</d1><d2>1.</d2><bo>maybe</bo><em>x</em><en/><idr>:</idr><idr>x:</idr><un/><ll-i8/><ll-d2>x</ll-d2></types></data>`,
 	`<data><mode xmlns="urn:verif:vm"><a>1</a><b>2</b><x/><y/></mode></data>`,
